@@ -152,6 +152,7 @@ type BEvent struct {
 	Conn     int
 	Sess     int
 	Kind     string
+	KindIdx  int // index among the callbacks of this kind on this connection
 	Begin    int64
 	End      int64
 	Done     bool
@@ -184,11 +185,12 @@ type BEvent struct {
 type SimBackend struct {
 	plan BackendPlan
 
-	mu       sync.Mutex
-	events   []*BEvent
-	nsess    int
-	perConn  map[int]*connCounters
-	srvConns map[int]*SimConn
+	mu        sync.Mutex
+	events    []*BEvent
+	nsess     int
+	perConn   map[int]*connCounters
+	srvConns  map[int]*SimConn
+	kindCount map[string]int
 }
 
 type connCounters struct {
@@ -197,7 +199,7 @@ type connCounters struct {
 }
 
 func NewSimBackend(plan BackendPlan) *SimBackend {
-	return &SimBackend{plan: plan, perConn: map[int]*connCounters{}, srvConns: map[int]*SimConn{}}
+	return &SimBackend{plan: plan, perConn: map[int]*connCounters{}, srvConns: map[int]*SimConn{}, kindCount: map[string]int{}}
 }
 
 func (b *SimBackend) connPlan(conn int) *ConnBackendPlan {
@@ -225,6 +227,9 @@ func (b *SimBackend) begin(conn, sess int, kind, arg string) *BEvent {
 	}
 	b.mu.Lock()
 	ev := &BEvent{Seq: len(b.events), Conn: conn, Sess: sess, Kind: kind, Begin: now, Arg: arg, SrvWritten: written}
+	key := kind + "/" + itoa(conn)
+	ev.KindIdx = b.kindCount[key]
+	b.kindCount[key]++
 	b.events = append(b.events, ev)
 	b.mu.Unlock()
 	return ev
@@ -243,7 +248,17 @@ func (ev *BEvent) finish(err error) {
 	ev.Done = true
 }
 
-func (ev *BEvent) class() int { return 100 + ev.Seq%800 }
+// class is the residue class in which this callback parks. It is derived
+// from the connection and the callback's index among the callbacks of its kind
+// on that connection - not from the global sequence number, whose order among
+// callbacks of different goroutines at one instant is up to the Go scheduler.
+func (ev *BEvent) class() int {
+	k := 0
+	for _, c := range ev.Kind {
+		k = k*31 + int(c)
+	}
+	return 100 + ((ev.Conn+1)*211+ev.KindIdx*17+k%13)%800
+}
 
 func (ev *BEvent) park(d Dur) {
 	if d > 0 {
